@@ -32,8 +32,34 @@ def classes_of_text(s):
     return out
 
 
+def _unwrap_once(sub):
+    """`X{1}` (a repeat of exactly one) is X; a one-character class `[.]` is that literal: written out in the tree so that the
+    shape checks see one form"""
+    data = sub.data if hasattr(sub, "data") else sub
+    i = 0
+    while i < len(data):
+        op, av = data[i]
+        if op in (sre_c.MAX_REPEAT, sre_c.MIN_REPEAT, getattr(sre_c, "POSSESSIVE_REPEAT", None)) and op is not None:
+            _unwrap_once(av[2])
+            if av[0] == 1 and av[1] == 1:
+                inner = list(av[2].data if hasattr(av[2], "data") else av[2])
+                data[i:i + 1] = inner
+                continue
+        elif op is sre_c.SUBPATTERN:
+            _unwrap_once(av[3])
+        elif op is sre_c.BRANCH:
+            for alt in av[1]:
+                _unwrap_once(alt)
+        elif op in (sre_c.ASSERT, sre_c.ASSERT_NOT):
+            _unwrap_once(av[1])
+        elif op is sre_c.IN and len(av) == 1 and av[0][0] is sre_c.LITERAL:
+            data[i] = (sre_c.LITERAL, av[0][1])
+        i += 1
+    return sub
+
+
 def parse(pattern, flags=0):
-    return sre_parse.parse(pattern, flags)
+    return _unwrap_once(sre_parse.parse(pattern, flags))
 
 
 def class_items(items):
